@@ -27,8 +27,10 @@ with ≈ as `Spec/Perm.lean` says.  Proved here:
                            tempo points up to row order (stated over the rows projected on the carried columns, any
                            labels) give charts with the same hits / holds / tempo points up to row order
 
-Not proved here (see manifest.d/C15.json): that a row permutation of a column-oriented frame induces `SrcKeyPerm`
-(the projection lemma), the SV list and the loop shapes of the converters, the osu / StepMania / BMS writers (their
+  convert_one_rowperm      the same with the relation stated as a row permutation of every (column-oriented) source
+                           list under any labels (`projRows_rowPerm`, the projection lemma)
+
+Not proved here (see manifest.d/C15.json): the SV list, the non-carried columns and the loop shapes of the converters, the osu / StepMania / BMS writers (their
 models are not yet composed with `Perm`).
 -/
 import Reamber.Lemmas.PermInv
@@ -357,6 +359,24 @@ theorem convert_one_perm : ∀ c ∈ Generated.converters, ∀ (src src' : Src) 
   intro c hc src src' cur cur' k t t' hok hok' h h' hrel
   exact contentOk_perm (convOne_content tables c src cur k t (table_static_ok c hc) hok h)
     (convOne_content tables c src' cur' k t' (table_static_ok c hc) hok' h') hrel
+
+/-- **converters, stated on row permutations**: `cur'` is `cur` with the rows of every list re-ordered (each list by
+its own permutation, any row labels, `SrcRowPerm`).  Then every shipped converter gives charts with the same hits,
+holds and tempo points up to row order. -/
+theorem convert_one_rowperm : ∀ c ∈ Generated.converters, ∀ (src src' : Src) (cur cur' : SrcMap) (k : Int) (t t' : TChart),
+    srcMapOk cur = true → srcMapOk cur' = true →
+    convOne tables c src cur k = .ok t → convOne tables c src' cur' k = .ok t' → SrcRowPerm cur cur' →
+    (∀ rt rt', projRows t.hits keysHits = some rt → projRows t'.hits keysHits = some rt' → rt.Perm rt') ∧
+    (∀ rt rt', projRows t.holds keysHolds = some rt → projRows t'.holds keysHolds = some rt' → rt.Perm rt') ∧
+    (∀ rt rt', projRows t.bpms keysBpms = some rt → projRows t'.bpms keysBpms = some rt' → rt.Perm rt') :=
+  fun c hc src src' cur cur' k t t' hok hok' h h' hrel =>
+    convert_one_perm c hc src src' cur cur' k t t' hok hok' h h' (srcKeyPerm_of_rowPerm hrel)
+
+/-- non-vacuity: a two-row hit list and the same list reversed under other labels -/
+example : RowPermOf [1, 0]
+    ⟨[0, 1], [("offset", [.num 10, .num 20]), ("column", [.num 0, .num 3])]⟩
+    ⟨[7, 5], [("offset", [.num 20, .num 10]), ("column", [.num 3, .num 0])]⟩ :=
+  ⟨List.Perm.swap _ _ _, rfl, rfl, rfl⟩
 
 end Converters
 
